@@ -61,7 +61,24 @@ class ExprMixin:
         """Evaluate a condition and decide it on this path."""
         v = self.ev(node, fr)
         t = self.truth(v, fr)
-        return self.branch(t, fr)
+        d = self.branch(t, fr)
+        if d:
+            self.narrow(node, fr)
+        return d
+
+    def narrow(self, test, fr):
+        """Static class refinement after a successful isinstance(name, Class) test."""
+        if isinstance(test, ast.BoolOp) and isinstance(test.op, ast.And):
+            for sub in test.values:
+                self.narrow(sub, fr)
+            return
+        if isinstance(test, ast.Call) and isinstance(test.func, ast.Name) and test.func.id == 'isinstance' and \
+                len(test.args) == 2 and isinstance(test.args[0], ast.Name) and isinstance(test.args[1], ast.Name):
+            name, cls = test.args[0].id, test.args[1].id
+            v = fr.vars.get(name)
+            if isinstance(v, VRef) and cls in self.repo.classes and not v.exact and \
+                    (v.cls is None or v.cls not in self.repo.classes or self.repo.is_subclass(cls, v.cls)):
+                fr.vars[name] = VRef(v.z, cls, nullable=False)
 
     # ------------------------------------------------------------------------------------------- dispatcher
     def ev(self, node, fr) -> V:
